@@ -221,6 +221,20 @@ def handle : DrvHandler := fun op args =>
       | .idle d => some (ok (Json.mkObj [("awake", .bool false), ("done", .bool d)]))
       | .att a => some (ok (Json.mkObj [("awake", .bool true), ("out", outJ a.out), ("end", int a.endTime),
                                         ("rec", recJ a.recAfter)]))
+  | "C11.stepStoredIn", [zone, env, lim, r, offs, now, dur, x] => do
+      -- the same in a process whose local time is `zone` ticks ahead of UTC; offs = the UTC offsets (null: none)
+      -- with which [started, stopped, delayed] stand in the storage
+      let zone ← jInt? zone
+      let env ← envOf? env; let lim ← limitsOf? lim; let r ← recOf? r
+      let os ← (match ← jArr? offs with
+                | [a, b, c] => do let a ← jOpt? jInt? a; let b ← jOpt? jInt? b; let c ← jOpt? jInt? c; some (Offsets.mk a b c)
+                | _ => none)
+      let now ← jInt? now; let dur ← jNat? dur; let x ← raisedOf? x
+      match stepStoredIn zone env lim os r now x dur with
+      | .raised => some (ok (Json.mkObj [("awake", .str "raised")]))
+      | .idle d => some (ok (Json.mkObj [("awake", .bool false), ("done", .bool d)]))
+      | .att a => some (ok (Json.mkObj [("awake", .bool true), ("out", outJ a.out), ("end", int a.endTime),
+                                        ("rec", recJ a.recAfter)]))
   | "C11.roundtrip", [r, now] => do
       let r ← recOf? r; let now ← jInt? now
       some (ok (recJ (fromStorage (toStorage r) now)))
